@@ -109,7 +109,7 @@ def gen_cases(tier, seed):
         if quick:
             sites = sites[:1] + rng.sample(sites[1:], min(2, len(sites) - 1))
         for site in sites:
-            for how in ('kbi_result', 'kbi_shutdown'):
+            for how in ('kbi_result', 'kbi_shutdown', 'kbi_exit'):
                 for extra_n in ((0,) if quick else (0, 1)):
                     s = copy.deepcopy(base)
                     s['seed'] = rng.randrange(1 << 30)
@@ -153,12 +153,12 @@ def evaluate(obs):
         stats['kbi_sent'] = 1 if kbi.get('sent') else 0
         stats['kbi_raised'] = 1 if kbi.get('kbi') else 0
         if kbi.get('sent') and not kbi.get('kbi') and not kbi.get('late_kbi'):
-            viol.append(oracles.V(f'SIGINT was delivered while the main thread was blocked in {how.split("_")[1]}() but no KeyboardInterrupt '
+            viol.append(oracles.V(f'SIGINT was delivered while the main thread was blocked in {how.split("_")[1].replace("exit", "__exit__")}() but no KeyboardInterrupt '
                                   f'reached the caller (raised instead: {kbi.get("exc")!r})', entry=how, sym='kbi-swallowed'))
-        if how == 'kbi_shutdown' and getattr(obs, 'done_at_barrier', None):
+        if how in ('kbi_shutdown', 'kbi_exit') and getattr(obs, 'done_at_barrier', None):
             nd = [k for k, v in obs.done_at_barrier.items() if v is False]
             if nd:
-                viol.append(oracles.V(f'shutdown() interrupted by Ctrl-C returned with futures {nd} not done', entry=how, sym='kbi-not-done'))
+                viol.append(oracles.V(f'{how.split("_")[1].replace("exit", "__exit__")}() interrupted by Ctrl-C returned with futures {nd} not done', entry=how, sym='kbi-not-done'))
     for x in obs.xfers:
         if x.outcome is None:
             continue
